@@ -10,7 +10,7 @@ from impl import trees, transitions, transitionoutput, treeoutput, quiet, clone
 from props.c04 import HEADS
 
 ID = "C10"
-MODULE = ['TT.Props.C10', 'TT.Props.C10Run', 'TT.Props.C10More', 'TT.Props.C10Sentence', 'TT.Props.C18Src']
+MODULE = ['TT.Props.C10', 'TT.Props.C10Run', 'TT.Props.C10More', 'TT.Props.C10Sentence', 'TT.Props.C18Src', 'TT.Props.C03Cmd']
 RULE = ("random well-formed head-marked trees: binarized (topdown: continuous; gap: continuous and discontinuous) or of "
         "arbitrary arity (inorder, continuous), unary nodes at any depth incl. an added TOP root and above tokens, "
         "one-token sentences; the emitted sequence is executed by the specification automaton and compared with the "
